@@ -479,9 +479,12 @@ func (t *Thread) processIncomingData(packet *defn.Pkt) {
 		// Mark PIT entry as satisfied
 		pitEntry.SetSatisfied(true)
 
-		// Insert into dead nonce list
+		// Insert into dead nonce list, under the name of the Interest that was sent (as
+		// finalizeInterest does): a looping copy of the Interest carries that name, which
+		// the name of the Data only equals when the Interest had neither CanBePrefix nor
+		// an implicit digest
 		for _, outRecord := range pitEntry.OutRecords() {
-			t.deadNonceList.Insert(data.NameV, outRecord.LatestNonce)
+			t.deadNonceList.Insert(outRecord.LatestInterest, outRecord.LatestNonce)
 		}
 
 		// Clear out records from PIT entry
@@ -514,7 +517,7 @@ func (t *Thread) processIncomingData(packet *defn.Pkt) {
 
 			// Insert into dead nonce list
 			for _, outRecord := range pitEntries[0].GetOutRecords() {
-				t.deadNonceList.Insert(data.NameV, outRecord.LatestNonce)
+				t.deadNonceList.Insert(outRecord.LatestInterest, outRecord.LatestNonce)
 			}
 
 			// Clear PIT entry's in- and out-records
